@@ -454,3 +454,71 @@ if __name__ == '__main__':
     for s in ['', 'a:b', 'http://[::1]/x?y#z', 'http://[::1', '1.2.3.4', '//[v1.a]:80', 'a b', '%4', '%41', '//[::ffff:1.2.3.256]',
               '//[1:2:3:4:5:6:7:8]', '//[1:2:3:4:5:6:7]', '//[1::3:4:5:6:7:8]', '//[1::2:3:4:5:6:7:8]']:
         print(repr(s), m.accepts([ord(c) for c in s]))
+
+
+# ------------------------------------------------------------------ indicator languages (component presence / kind)
+
+AUTH_ONLY = {'hier-part': '"//" authority path-abempty', 'relative-part': '"//" authority path-abempty'}
+
+INDICATORS = {
+    # name -> rule overrides (ABNF text); every language is a subset of URI-reference
+    'scheme': {'uri-reference': 'URI'},
+    'authority': dict(AUTH_ONLY),
+    'userinfo': dict(AUTH_ONLY, authority='userinfo "@" host [ ":" port ]'),
+    'port': dict(AUTH_ONLY, authority='[ userinfo "@" ] host ":" port'),
+    'query': {'uri': 'scheme ":" hier-part "?" query [ "#" fragment ]', 'relative-ref': 'relative-part "?" query [ "#" fragment ]'},
+    'fragment': {'uri': 'scheme ":" hier-part [ "?" query ] "#" fragment',
+                 'relative-ref': 'relative-part [ "?" query ] "#" fragment'},
+    'ip6': dict(AUTH_ONLY, host='"[" IPv6address "]"'),
+    'future': dict(AUTH_ONLY, host='"[" IPvFuture "]"'),
+    'ip4': dict(AUTH_ONLY, host='IPv4address'),
+    'host-empty': dict(AUTH_ONLY, host='""'),
+    'abs': {'hier-part': 'path-absolute', 'relative-part': 'path-absolute'},
+    'segments': {'hier-part': '"//" authority 1*( "/" segment ) / "/" segment-nz *( "/" segment ) / path-rootless',
+                 'relative-part': '"//" authority 1*( "/" segment ) / "/" segment-nz *( "/" segment ) / path-noscheme'},
+}
+
+
+def indicator_dfas():
+    """minimal DFA per indicator language plus the URI-reference DFA; returns (names, [dfa...], joint class_of)"""
+    if 'ind' in _cache:
+        return _cache['ind']
+    import hashlib
+    import pickle
+    here = os.path.dirname(os.path.abspath(__file__))
+    h = hashlib.sha256(open(os.path.join(here, 'abnf.py'), 'rb').read() + open(os.path.join(here, 'rfc3986.abnf'), 'rb').read())
+    cdir = os.path.join(os.path.dirname(here), '.cache')
+    cpath = os.path.join(cdir, 'ind_%s.pkl' % h.hexdigest()[:24])
+    if os.path.exists(cpath):
+        try:
+            with open(cpath, 'rb') as f:
+                _cache['ind'] = pickle.load(f)
+            return _cache['ind']
+        except Exception:
+            pass
+    base = rfc3986_rules()
+    names = ['uri-reference'] + sorted(INDICATORS)
+    dfas = []
+    for n in names:
+        rules = dict(base)
+        for k, v in INDICATORS.get(n, {}).items():
+            rules[k.lower()] = _Parser(v).parse()
+        nfa = build_nfa(rules, 'uri-reference')
+        dfas.append(minimize(determinize(nfa)))
+    sig = {}
+    joint = [0] * NSYM
+    for sym in range(NSYM):
+        key = tuple(d.class_of[sym] for d in dfas)
+        if key not in sig:
+            sig[key] = len(sig)
+        joint[sym] = sig[key]
+    _cache['ind'] = (names, dfas, joint)
+    try:
+        os.makedirs(cdir, exist_ok=True)
+        tmp = cpath + '.%d.tmp' % os.getpid()
+        with open(tmp, 'wb') as f:
+            pickle.dump(_cache['ind'], f, protocol=pickle.HIGHEST_PROTOCOL)
+        os.replace(tmp, cpath)
+    except OSError:
+        pass
+    return _cache['ind']
